@@ -761,3 +761,5 @@ M("C03", "drive columns laid out for the sorted ids", "kill", [(PA, "    qubit_i
 M("C03", "drive columns laid out in the sampler's dictionary order", "kill", [(PA, "    qubit_ids_filtered = [qid for qid in qubit_ids if qid in locals_a_d_p]", "    qubit_ids_filtered = [qid for qid in locals_a_d_p if qid in qubit_ids]")], "STEP-adapter")
 M("C22", "drive column written at a position counted over addressed atoms only of another list", "kill", [(PA, "            data_mid[:, q_pos] = pchip(t_mid)\n", "            data_mid[:, qubit_ids.index(q_id) % data_mid.shape[1]] = pchip(t_mid)\n")], "STEP-adapter")
 M("C03", "twin: filtered ids built through an explicit list()", "twin", [(PA, "    qubit_ids_filtered = [qid for qid in qubit_ids if qid in locals_a_d_p]", "    present = locals_a_d_p\n    qubit_ids_filtered = [qid for qid in list(qubit_ids) if qid in present]")])
+M("C23", "configured interaction matrix ignored", "kill", [(PA, "        if config.interaction_matrix is not None:\n            assert len(config.interaction_matrix) == self.qubit_count", "        if config.interaction_matrix is None:\n            assert len(config.interaction_matrix) == self.qubit_count")], "INTERACT")
+M("C23", "configured interaction matrix stored without the size test", "kill", [(PA, "            assert len(config.interaction_matrix) == self.qubit_count, (\n                \"The number of qubits in the register should be the same as the size of \"\n                \"the interaction matrix\"\n            )\n", "")], "INTERACT")
